@@ -20,12 +20,15 @@ package config
 //@ pred docHealth(c *Config) := (c.HealthChecks.Active.Enabled ==> c.HealthChecks.Active.Interval > 0 && c.HealthChecks.Active.Timeout > 0
 //@         && c.HealthChecks.Active.Timeout < c.HealthChecks.Active.Interval && c.HealthChecks.Active.Path != "" && plainPath(c.HealthChecks.Active.Path))
 //@      && (c.HealthChecks.Passive.Enabled ==> c.HealthChecks.Passive.UnhealthyThreshold > 0 && c.HealthChecks.Passive.UnhealthyTimeout > 0)
-//@ pred docRateLimit(c *Config) := c.RateLimit.Enabled ==> c.RateLimit.MaxTokens > 0 && c.RateLimit.RefillRate > 0
+// (the capacity must fit 31 bits: a bucket adds the refilled tokens to its count before it caps the sum - with a capacity
+// near the top of the integer range the sum wraps negative and the client is refused for ever)
+//@ pred docRateLimit(c *Config) := c.RateLimit.Enabled ==> c.RateLimit.MaxTokens > 0 && c.RateLimit.RefillRate > 0 && c.RateLimit.MaxTokens <= 2147483647
 // circuit breaker: positive thresholds/durations; max_requests is a count (0 = default 1) and must allow
 // success_threshold successes, otherwise the breaker can never close again (C08).
 //@ pred effMaxRequests(c *Config) int := c.CircuitBreaker.MaxRequests == 0 ? 1 : c.CircuitBreaker.MaxRequests
 //@ pred docBreaker(c *Config) := c.CircuitBreaker.Enabled ==> c.CircuitBreaker.FailureThreshold > 0 && c.CircuitBreaker.SuccessThreshold > 0
 //@      && c.CircuitBreaker.TimeoutSeconds > 0 && c.CircuitBreaker.IntervalSeconds > 0 && c.CircuitBreaker.MaxRequests >= 0
+//@      && c.CircuitBreaker.FailureThreshold <= 4294967295 && c.CircuitBreaker.SuccessThreshold <= 4294967295 && c.CircuitBreaker.MaxRequests <= 4294967295
 // C18 "an accepted configuration either starts a working proxy or fails with a clear error; it never panics or starts
 // half-configured": the metrics server registers metrics.path next to its own /health on one mux - the same path
 // twice is a start-up panic, and a path that is not absolute and clean is registered but never reached by a request
@@ -152,6 +155,7 @@ package config
 // before it validates, and a file is accepted exactly when the result is a documented configuration.
 //@ pred fileBreaker(c *Config) := c.CircuitBreaker.Enabled ==> c.CircuitBreaker.FailureThreshold >= 0 && c.CircuitBreaker.SuccessThreshold >= 0
 //@      && c.CircuitBreaker.TimeoutSeconds >= 0 && c.CircuitBreaker.IntervalSeconds >= 0 && c.CircuitBreaker.MaxRequests >= 0
+//@      && c.CircuitBreaker.FailureThreshold <= 4294967295 && c.CircuitBreaker.SuccessThreshold <= 4294967295 && c.CircuitBreaker.MaxRequests <= 4294967295
 //@ pred fileMetrics(c *Config) := c.Metrics.Enabled ==> (c.Metrics.Port == 0 || portOK(c.Metrics.Port))
 //@      && (c.Metrics.Path == "" || (servable(c.Metrics.Path) && c.Metrics.Path != "/health"))
 //@ func (*Config).applyDefaults
